@@ -308,7 +308,11 @@ def rule_factor_link(P):
         if lf is not None and li is not None and isinstance(lf.target, ast.Tuple) and isinstance(li.target, ast.Tuple):
             ok = norm(lf.iter) == left and norm(li.iter) == right_it and norm(lf.target.elts[0]) == src and norm(li.target.elts[0]) == tgt \
                 and num == sorted([norm(lf.target.elts[1]), norm(li.target.elts[1])]) and not den
-        r.add(f, c, ok, "" if ok else f"`{first_line(c)}`: link must go from each (q, w1) in {left} to each (p, w2) in {right_it} with weight w1·w2",
+        if ok:
+            inner_guards = [ft for ft in W.guard_facts(c) if ft.kind in ("if", "else", "early-exit", "early-exit-else") and W._within(ft.origin, lf)]
+            if inner_guards:
+                ok = False
+        r.add(f, c, ok, "" if ok else f"`{first_line(c)}`: link must go, unconditionally, from each (q, w1) in {left} to each (p, w2) in {right_it} with weight w1·w2",
               slots=dict(factors=num, source_from=norm(lf.iter) if lf else None, target_from=norm(li.iter) if li else None))
         if name == "__mul__":
             # left keeps init+arcs (not stop); right contributes arcs and stop (not init)
@@ -478,7 +482,8 @@ def rule_factor_locnorm(P):
     r.looked_at(p)
     aug = [n for n in walk_live(p.node) if isinstance(n, ast.AugAssign)]
     init = [n for n in walk_live(p.node) if isinstance(n, ast.Assign)]
-    ok = len(aug) == 1 and isinstance(aug[0].op, ast.Mult) and norm(aug[0].value) == f"self[{norm(_loop_of(aug[0], norm(aug[0].value.slice)).target)}]" \
+    ok = len(aug) == 1 and isinstance(aug[0].op, ast.Mult) and isinstance(aug[0].value, ast.Subscript) and W.is_name(aug[0].value.value, "self") \
+        and _loop_of(aug[0], norm(aug[0].value.slice)) is not None and norm(_loop_of(aug[0], norm(aug[0].value.slice)).iter) == p.params[1] \
         and len(init) == 1 and norm(init[0].value).endswith(".one")
     r.add(p, aug[0] if aug else p.node, ok, "" if ok else "Chart.product must be the product of self[k] over the keys, starting from one")
     r.min_instances = 2
@@ -581,5 +586,95 @@ def rule_factor_cky(P):
         else:
             ok = x == "self.S" and i == k and len(num) == 1
             r.add(f, a, ok, "" if ok else f"`{first_line(a)}` is not the nullary update at (i, S, i)", slots=dict(factors=num))
+    r.min_instances = 3
+    return r
+
+
+# ---------------------------------------------------------------- FACTOR-NULLPUSH
+
+
+def rule_factor_nullpush(P):
+    r = RuleResult("FACTOR-NULLPUSH", "_push_null_weights expands every rule over the power set of its body POSITIONS "
+                   "(product([0,1], repeat=len(body))): position i is either dropped, multiplying the weight by the null weight of "
+                   "body[i], or kept as f(body[i]); the weight starts from r.w. Deciding per distinct symbol instead of per position "
+                   "loses the derivations in which only some copies of a repeated nullable symbol are empty",
+                   "null removal enumerates drop/keep per body position")
+    f = P.func("cfg.py::CFG._push_null_weights")
+    r.looked_at(f)
+    nw = f.params[1]
+    outer = [n for n in walk_live(f.node) if isinstance(n, ast.For) and isinstance(n.iter, ast.Call) and W.call_name(n.iter) == "product"]
+    if len(outer) != 1:
+        r.add(f, f.node, False, "no loop over product([0, 1], repeat=len(r.body)) found", construct="_push_null_weights: power set over positions")
+        r.min_instances = 1
+        return r
+    lp = outer[0]
+    rv = next((v for v, it in _loop_vars(lp).items() if it in ("self", "self.rules")), None)
+    rep = next((k.value for k in lp.iter.keywords if k.arg == "repeat"), None)
+    ok = rv is not None and rep is not None and norm(rep) == f"len({rv}.body)" and lp.iter.args and norm(lp.iter.args[0]) in ("[0, 1]", "(0, 1)", "[1, 0]", "(1, 0)", "[False, True]", "(False, True)")
+    r.add(f, lp, ok, "" if ok else f"`{first_line(lp)}`: the enumeration is not over one bit per body position of the rule",
+          slots=dict(repeat=norm(rep) if rep is not None else None))
+    if not ok:
+        r.min_instances = 1
+        return r
+    B = lp.target.id if isinstance(lp.target, ast.Name) else None
+    inner = [n for n in walk_live(lp) if isinstance(n, ast.For) and n is not lp and isinstance(n.iter, ast.Call) and W.call_name(n.iter) == "enumerate"
+             and n.iter.args and W.is_name(n.iter.args[0], B)]
+    ok = len(inner) == 1 and isinstance(inner[0].target, ast.Tuple) and len(inner[0].target.elts) == 2
+    if not ok:
+        r.add(f, lp, False, "the per-position loop `for i, b in enumerate(B)` was not found", construct="_push_null_weights: per-position loop")
+        r.min_instances = 2
+        return r
+    i, b = (norm(e) for e in inner[0].target.elts)
+    muls = [n for n in walk_live(inner[0]) if isinstance(n, ast.AugAssign) and isinstance(n.op, ast.Mult)]
+    apps = [n for n in walk_live(inner[0]) if isinstance(n, ast.Call) and W.call_name(n) == "append"]
+    okm = len(muls) == 1 and norm(muls[0].value) == f"{nw}[{rv}.body[{i}]]" and any(ft.pol and norm(ft.test) == b for ft in W.guard_facts(muls[0]))
+    oka = len(apps) == 1 and isinstance(apps[0].args[0], ast.Call) and norm(apps[0].args[0].args[0]) == f"{rv}.body[{i}]" \
+        and any((not ft.pol) and norm(ft.test) == b for ft in W.guard_facts(apps[0]))
+    r.add(f, muls[0] if muls else inner[0], okm, "" if okm else "a dropped position must multiply the weight by the null weight of the symbol at that position")
+    r.add(f, apps[0] if apps else inner[0], oka, "" if oka else "a kept position must append the (renamed) symbol at that position")
+    # v starts from r.w
+    vname = norm(muls[0].target) if muls else "v"
+    inits = [(st, val) for st, val in W.assignments_to(f.node, vname)]
+    init_ok = False
+    for n in walk_live(lp):
+        if isinstance(n, ast.Assign) and W._within(n, lp) and not W._within(n, inner[0]):
+            t = n.targets[0]
+            if isinstance(t, ast.Tuple) and isinstance(n.value, ast.Tuple):
+                for a, bb in zip(t.elts, n.value.elts):
+                    if norm(a) == vname and norm(bb) == f"{rv}.w":
+                        init_ok = True
+            elif norm(t) == vname and norm(n.value) == f"{rv}.w":
+                init_ok = True
+    r.add(f, lp, init_ok, "" if init_ok else f"the weight accumulator must start from {rv}.w for every subset", construct="_push_null_weights: weight starts from r.w")
+    r.min_instances = 4
+    return r
+
+
+# ---------------------------------------------------------------- FACTOR-REVERSE
+
+
+def rule_factor_reverse(P):
+    r = RuleResult("FACTOR-REVERSE", "WFSA.reverse swaps source and target of every arc (same label and weight), makes the final "
+                   "weights initial and the initial weights final, through the construction API", "reversal is the mirror image")
+    f = P.func("wfsa/base.py::WFSA.reverse")
+    r.looked_at(f)
+    arcs = _adds(f, names=("add_arc", "set_arc"))
+    ok = len(arcs) == 1
+    if ok:
+        c = arcs[0]
+        lp = _loop_of(c, norm(c.args[0]))
+        ok = lp is not None and norm(lp.iter) == "self.arcs()" and isinstance(lp.target, ast.Tuple) and len(lp.target.elts) == 4
+        if ok:
+            i, a, j, w = (norm(e) for e in lp.target.elts)
+            ok = [norm(x) for x in c.args] == [j, a, i, w] and c.func.attr == "add_arc"
+    r.add(f, arcs[0] if arcs else f.node, ok, "" if ok else "arcs must be re-added as (target, label, source, weight)")
+    for api, src in (("add_I", "self.F"), ("add_F", "self.I")):
+        cs = _adds(f, names=(api,))
+        ok = len(cs) == 1
+        if ok:
+            c = cs[0]
+            lp = _loop_of(c, norm(c.args[0]))
+            ok = lp is not None and norm(lp.iter) == src and [norm(x) for x in c.args] == [norm(e) for e in lp.target.elts]
+        r.add(f, cs[0] if cs else f.node, ok, "" if ok else f"{api} must be called for every (state, weight) of {src}", construct=f"reverse: {api} from {src}")
     r.min_instances = 3
     return r
